@@ -35,12 +35,25 @@ pub struct Log {
     pub m: Mutex<Vec<Value>>,
     pub cv: Condvar,
 }
+/// Dispatches recorded per step before further ones are only throttled (a kick that is never consumed makes
+/// a level-triggered worker dispatch it forever; the count is what the trace specification judges).
+pub const STORM: usize = 2000;
+static NDISP: std::sync::atomic::AtomicUsize = std::sync::atomic::AtomicUsize::new(0);
 impl Log {
     pub fn push(&self, v: Value) {
         self.m.lock().unwrap().push(v);
         self.cv.notify_all();
     }
+    /// a ring dispatch (not the barrier): recorded up to STORM per step
+    pub fn push_dispatch(&self, v: Value) {
+        if NDISP.fetch_add(1, std::sync::atomic::Ordering::SeqCst) >= STORM {
+            std::thread::sleep(Duration::from_micros(200));
+            return;
+        }
+        self.push(v);
+    }
     pub fn take(&self) -> Vec<Value> {
+        NDISP.store(0, std::sync::atomic::Ordering::SeqCst);
         std::mem::take(&mut *self.m.lock().unwrap())
     }
     /// wait until `pred(events)` holds or timeout
@@ -86,7 +99,7 @@ pub struct TB<V> {
     pub updates: Mutex<u64>,
     pub script: Mutex<Script>,
     /// custom listener eventfds per thread (to be drained when dispatched)
-    pub listeners: Mutex<Vec<(usize, Arc<EventFd>)>>,
+    pub listeners: Mutex<Vec<(usize, u64, Arc<EventFd>)>>,
     pub backends: Mutex<Vec<Backend>>,
     /// optional gate that blocks the `acked_features` callback ("inside the handler"): (entered, released)
     pub gate: Mutex<Option<Arc<(Mutex<(bool, bool)>, Condvar)>>>,
@@ -214,18 +227,25 @@ impl<V: VringT<GM> + Send + Sync + 'static> VhostUserBackend for TB<V> {
                 let r2 = v.signal_used_queue().is_ok();
                 rec["used"] = json!({"add_used_ok": r1, "signal_ok": r2});
             }
-            self.log.push(rec);
+            self.log.push_dispatch(rec);
             if sc.handle_err {
                 return Err(std::io::Error::other("scripted handle_event failure"));
             }
         } else {
-            // custom listener: drain whatever listener eventfd of ours is readable
-            for (t, e) in self.listeners.lock().unwrap().iter() {
-                if *t == thread_id {
+            // custom listener: drain the listener eventfd(s) of this thread registered under this event id
+            let mut mine = false;
+            for (t, id, e) in self.listeners.lock().unwrap().iter() {
+                if *t == thread_id && *id as u16 == device_event {
                     let _ = e.read();
+                    mine = true;
                 }
             }
-            self.log.push(rec);
+            if mine {
+                self.log.push(rec);
+            } else {
+                // an event id that is neither a ring of this thread nor one of our listeners
+                self.log.push_dispatch(rec);
+            }
         }
         Ok(())
     }
@@ -323,7 +343,7 @@ impl Peer {
             }
             let ping = self.request(1, &[], &[], true);
             return Reply {
-                status: if ping.status == "ok" { "ok".into() } else { "closed".into() },
+                status: if ping.status == "ok" { "ok".into() } else if ping.status == "timeout" { "timeout".into() } else { "closed".into() },
                 body: vec![],
                 fds: vec![],
             };
@@ -334,6 +354,14 @@ impl Peer {
         let mut rfds = Vec::new();
         while got < 12 {
             match raw_recv(&self.sock, &mut hdr[got..], 0) {
+                Err(e) if e.kind() == std::io::ErrorKind::WouldBlock || e.kind() == std::io::ErrorKind::TimedOut => {
+                    // the receive timeout expired while the connection is still open: no answer
+                    return Reply {
+                        status: "timeout".into(),
+                        body: vec![],
+                        fds: rfds,
+                    };
+                }
                 Ok((0, _)) | Err(_) => {
                     return Reply {
                         status: "closed".into(),
@@ -493,7 +521,7 @@ pub fn make_rig<V: VringT<GM> + Clone + Send + Sync + 'static>(cfg: Cfg, adapter
     for t in 0..nthreads {
         let e = Arc::new(EventFd::new(libc::EFD_NONBLOCK).unwrap());
         (rig.handlers_reg)(t, e.as_raw_fd(), rig.barrier_id).expect("register barrier");
-        rig.tb.listeners.lock().unwrap().push((t, e.clone()));
+        rig.tb.listeners.lock().unwrap().push((t, rig.barrier_id, e.clone()));
         rig.barrier.push(e);
     }
     rig
